@@ -495,6 +495,7 @@ def gen_gfa2(rng, names=NAMES):
     for s in segs:
         L.append(seg2(s, lens[s], rng.chance(0.5), rnd_tags(rng)))
     doves = []
+    nondoves = []
     used = set()
     for i in range(rng.pick([1, 2, 3, 4])):
         a, b = rng.pick(segs), rng.pick(segs)
@@ -535,8 +536,15 @@ def gen_gfa2(rng, names=NAMES):
         nm = "e%d" % i if named else "*"
         if named and kind == "dove" and al not in ("2,3",):
             doves.append((nm, a, o1, b, o2, order))
+        if named and kind != "dove":
+            nondoves.append(["E", nm, a + o1, b + o2])
         L.append("E\t%s\t%s%s\t%s%s\t%s\t%s\t%s\t%s\t%s%s" % (nm, a, o1, b, o2, pos2(i1[0], lens[a]), pos2(i1[1], lens[a]), pos2(i2[0], lens[b]),
                                                           pos2(i2[1], lens[b]), al, rnd_tags(rng)))
+    conts = [f for f in nondoves if f[2][:-1] != f[3][:-1]]
+    if conts and rng.chance(0.35):
+        # an ordered group over an edge that is not a dovetail: no GFA1 path can stand for it
+        f = rng.pick(conts)
+        L.append("O\tpc\t%s %s+ %s" % (f[2], f[1], f[3]) + rnd_tags(rng))
     if doves and rng.chance(0.7):
         nm, a, o1, b, o2, order = rng.pick(doves)
         if order == 0:
@@ -802,7 +810,7 @@ def oracle(case):
     pairs = [frozenset((e["s1"], e["s2"])) for e in Dsrc["E"]] if d == "2to1" else []
     parallel = len(set(pairs)) != len(pairs)
     bad = unnameable(Dsrc) if d == "2to1" else {"S": set(), "E": set(), "O": set()}
-    has_orphans = d == "2to1" and (parallel or Dsrc["F"] or Dsrc["G"] or Dsrc["U"] or Dsrc["other"] or bad["S"] or
+    has_orphans = d == "2to1" and (parallel or Dsrc["F"] or Dsrc["G"] or Dsrc["U"] or Dsrc["other"] or bad["S"] or bad["O"] or
                                    any(e_kind(e, lens) == "I" or isinstance(aln_of(e["aln"]), tuple) for e in Dsrc["E"]))
     if parallel:
         return []          # two GFA2 edges between the same pair of segments: GFA1 has one link per pair of ends -- not judged
@@ -816,7 +824,7 @@ def oracle(case):
             texts.append((how, T))
     for how, T in texts:
         tl = [l for l in T.split("\n") if l != ""]
-        if bad["S"]:
+        if bad["S"] or bad["O"]:
             # what has no GFA1 spelling must be absent; the rest is compared as usual
             tl_rest, nbad = check_unnameable_absent(F, Dsrc, bad, tl, how)
             if nbad == 0:
@@ -863,6 +871,8 @@ def oracle(case):
             f = str(l).split("\t")
             noname = (rt == "S" and f[1] in bad["S"]) or (rt == "E" and (f[2][:-1] in bad["S"] or f[3][:-1] in bad["S"])) or \
                      (rt == "O" and group_is_unnameable(f[2].split(" "), bad))
+            if rt == "O" and f[1] in bad["O"] and not noname:
+                orphan = True       # a group over an edge that is not a dovetail: no GFA1 path stands for it
             if not (orphan or noname):
                 continue
             for m in ("to_gfa1", "to_gfa1_s"):
@@ -892,6 +902,17 @@ def unnameable(D2):
     be = {(e["id"] or e["text"]) for e in D2["E"] if e["s1"] in bs or e["s2"] in bs}
     bad = {"S": bs, "E": be, "O": set()}
     bad["O"] = {o["name"] for o in D2["O"] if group_is_unnameable(["%s%s" % it for it in o["items"]], bad)}
+    # a GFA1 path is a walk over links: an ordered group that names an edge which is not a dovetail (a containment, an
+    # internal alignment) has no counterpart either - written as a P line it would require a link that does not exist
+    lens = {n: x["len"] for n, x in D2["S"].items()}
+    nondove = set()
+    for e in D2["E"]:
+        try:
+            if e["id"] and e["s1"] in lens and e["s2"] in lens and e_kind(e, lens) != "L":
+                nondove.add(e["id"])
+        except Exception:
+            pass
+    bad["O"] |= {o["name"] for o in D2["O"] if any(it[0] in nondove for it in o["items"])}
     return bad
 
 
